@@ -213,3 +213,50 @@ func init() {
 		}})
 	_ = fmt.Sprint
 }
+
+// F.divfirst: divide-before-multiply in 18-digit fixed point.  x.Quo(y) is rounded to 18 decimals; multiplying the
+// rounded quotient by an amount A carries an absolute error of up to 5e-19 x A.  For token amounts at 18-decimal
+// scale (1e18 base units and above) that exceeds one base unit, which the "exact" clauses of C20 (reported balance
+// is what can be undelegated), C15 (exactly the requested value moves) and C10 (within two base units) do not allow.
+// Multiplying first and dividing last keeps the error below one unit of the last place of the result.
+func init() {
+	register(&Rule{ID: "F.divfirst", Props: []string{"C20", "C15", "C10"}, Floor: 3,
+		Doc: "value formulas multiply before they divide",
+		Run: func(e *Engine, r *RuleRun) {
+			isQuo := func(t *Term) bool {
+				return t != nil && (t.IsCall("math.LegacyDec.Quo") || t.IsCall("math.LegacyDec.QuoInt") || t.IsCall("math.LegacyDec.QuoTruncate"))
+			}
+			n := 0
+			for _, fn := range e.SMFuncs() {
+				p := fn.Pkg.Pkg.Path()
+				if p != pKeeper && p != pTypes {
+					continue
+				}
+				fa := e.FA(fn)
+				fk := FuncKey(fn)
+				cnt := map[string]int{}
+				for _, c := range CallsTo(fn, "math.LegacyDec.Mul", "math.LegacyDec.MulInt", "math.LegacyDec.MulTruncate") {
+					recv, arg := recvT(fa, c), argT(fa, c, 0)
+					if !isQuo(recv) && !isQuo(arg) {
+						continue
+					}
+					n++
+					q := recv
+					other := arg
+					if !isQuo(recv) {
+						q, other = arg, recv
+					}
+					_ = q
+					name := strings.TrimPrefix(CalleeKey(c.Common()), "math.LegacyDec.")
+					cnt[name]++
+					construct := fmt.Sprintf("divfirst:%s#%d", name, cnt[name])
+					if fk == "keeper.Keeper.AddAssetsToRewardPool" {
+						r.OK(fk, construct, "reward index increment: the resolution of the 18-digit reward index is part of C13's stated tolerance and C12 is decided on the rounding direction (C12.round)", r.P(c))
+						continue
+					}
+					r.Bad(fk, construct, "a rounded quotient is multiplied by "+stripOrd(other.String())+": the absolute error is up to 5e-19 times that factor, i.e. more than one base unit once token amounts reach 18-decimal scale (hunt: with 1e18 and 2e18 staked the reported balance is 2e18+1 and cannot be undelegated; a redelegation of 1001e18 moves 157.8 units too little out of the source and 281.5 too much into the destination; the rebalance over-mints 115 711 units for one of three validators with 3e23 native stake each)", nil, r.P(c))
+				}
+			}
+			r.Check(n >= 3, "-", "multiplications of a quotient found", fmt.Sprintf("%d", n), fmt.Sprintf("only %d found: the scan is not seeing the value formulas", n))
+		}})
+}
